@@ -562,6 +562,19 @@ func driveCodec(w *writer) error {
 			w.emit(doClassify(&c))
 		case "sweep_classify":
 			sweepClassify(w, &c)
+		case "sweep_proto":
+			// every non-zero protocol identifier on an otherwise legal header: the ids that were NOT refused as "not Modbus"
+			for _, fc := range []int{3, 16, 100} {
+				acc := []int{}
+				for proto := 1; proto < 65536; proto++ {
+					hdr := []int{0x12, 0x34, proto >> 8, proto & 0xFF, 0, 6, 0x11, fc, 0, 1, 0, 1}
+					cc := codecCase{Frame: hdr, Allow: c.Allow, Tag: "hdr"}
+					if e := doClassify(&cc); e["kind"] != "not" && len(acc) < 50 {
+						acc = append(acc, proto)
+					}
+				}
+				w.emit(Ev{"op": "protosweep", "fc": fc, "allow": c.Allow, "accepted": acc})
+			}
 		case "crc":
 			w.emit(Ev{"op": "crc", "msg": c.Msg, "out": int(packet.CRC16(bytesOf(c.Msg)))})
 		case "rand_crc":
@@ -1054,11 +1067,11 @@ func doCoil(c *codecCase) Ev {
 		var err error
 		switch {
 		case c.Fc == 1:
-			v, err = packet.ReadCoilsResponse{UnitID: 1, CoilsByteLength: uint8(len(data)), Data: data}.IsCoilSet(uint16(c.Start), uint16(c.Addr))
+			v, err = (&packet.ReadCoilsResponse{UnitID: 1, CoilsByteLength: uint8(len(data)), Data: data}).IsCoilSet(uint16(c.Start), uint16(c.Addr))
 		case c.Method == "IsInputSet":
-			v, err = packet.ReadDiscreteInputsResponse{UnitID: 1, InputsByteLength: uint8(len(data)), Data: data}.IsInputSet(uint16(c.Start), uint16(c.Addr))
+			v, err = (&packet.ReadDiscreteInputsResponse{UnitID: 1, InputsByteLength: uint8(len(data)), Data: data}).IsInputSet(uint16(c.Start), uint16(c.Addr))
 		default:
-			v, err = packet.ReadDiscreteInputsResponse{UnitID: 1, InputsByteLength: uint8(len(data)), Data: data}.IsCoilSet(uint16(c.Start), uint16(c.Addr))
+			v, err = (&packet.ReadDiscreteInputsResponse{UnitID: 1, InputsByteLength: uint8(len(data)), Data: data}).IsCoilSet(uint16(c.Start), uint16(c.Addr))
 		}
 		if err != nil {
 			e["outcome"] = "err"
@@ -1073,11 +1086,11 @@ func doCoil(c *codecCase) Ev {
 			var err2 error
 			switch {
 			case c.Fc == 1:
-				v2, err2 = packet.ReadCoilsResponse{UnitID: 1, CoilsByteLength: bl, Data: data}.IsCoilSet(uint16(c.Start), uint16(c.Addr))
+				v2, err2 = (&packet.ReadCoilsResponse{UnitID: 1, CoilsByteLength: bl, Data: data}).IsCoilSet(uint16(c.Start), uint16(c.Addr))
 			case c.Method == "IsInputSet":
-				v2, err2 = packet.ReadDiscreteInputsResponse{UnitID: 1, InputsByteLength: bl, Data: data}.IsInputSet(uint16(c.Start), uint16(c.Addr))
+				v2, err2 = (&packet.ReadDiscreteInputsResponse{UnitID: 1, InputsByteLength: bl, Data: data}).IsInputSet(uint16(c.Start), uint16(c.Addr))
 			default:
-				v2, err2 = packet.ReadDiscreteInputsResponse{UnitID: 1, InputsByteLength: bl, Data: data}.IsCoilSet(uint16(c.Start), uint16(c.Addr))
+				v2, err2 = (&packet.ReadDiscreteInputsResponse{UnitID: 1, InputsByteLength: bl, Data: data}).IsCoilSet(uint16(c.Start), uint16(c.Addr))
 			}
 			if (err2 != nil) != (err != nil) || v2 != v {
 				e["lenDep"] = true
@@ -1145,6 +1158,15 @@ func doCoilExtract(c *codecCase) Ev {
 			resp = &packet.ReadCoilsResponseTCP{ReadCoilsResponse: packet.ReadCoilsResponse{UnitID: 1, CoilsByteLength: uint8(len(data)), Data: data}}
 		} else {
 			resp = &packet.ReadDiscreteInputsResponseTCP{ReadDiscreteInputsResponse: packet.ReadDiscreteInputsResponse{UnitID: 1, InputsByteLength: uint8(len(data)), Data: data}}
+		}
+		// every other case hands the response over BY VALUE (as the repository's own builder tests do): a struct value
+		// is a coil response just as a pointer to it is
+		if len(c.Data)%2 == 1 {
+			if c.Fc == 1 {
+				resp = packet.ReadCoilsResponseTCP{ReadCoilsResponse: packet.ReadCoilsResponse{UnitID: 1, CoilsByteLength: uint8(len(data)), Data: data}}
+			} else {
+				resp = packet.ReadDiscreteInputsResponseTCP{ReadDiscreteInputsResponse: packet.ReadDiscreteInputsResponse{UnitID: 1, InputsByteLength: uint8(len(data)), Data: data}}
+			}
 		}
 		vals, _ := br.ExtractFields(resp, true)
 		res := []Ev{}
